@@ -3,6 +3,7 @@ package bt
 import (
 	"encoding/json"
 	"errors"
+	"math"
 
 	"github.com/libsv/go-bt/v2/bscript"
 )
@@ -159,7 +160,7 @@ func (o *nodeOutputJSON) toOutput() (*Output, error) {
 	if err != nil {
 		return nil, err
 	}
-	out.Satoshis = uint64(o.Value * 100000000)
+	out.Satoshis = uint64(math.Round(o.Value * 100000000))
 	out.LockingScript = s
 	return out, nil
 }
